@@ -226,7 +226,9 @@ def decode_from_dict(d: Any, refs: Dict[int, Any]):
                 value = register({})
                 if "items" in d:
                     for k, v in d["items"]:
-                        value[decode_from_dict(k, refs)] = decode_from_dict(v, refs)
+                        # (the key first: the value can hold a reference to it)
+                        key = decode_from_dict(k, refs)
+                        value[key] = decode_from_dict(v, refs)
                 else:
                     for k, v in d["value"].items():
                         value[k] = decode_from_dict(v, refs)
